@@ -62,6 +62,10 @@ void h_add_scenario(void)
     type = VNACAL_T8; rows = 1; cols = 2;
 #elif SCENARIO == 10
     type = VNACAL_UE14; rows = 2; cols = 1;
+#elif SCENARIO == 13
+    type = VNACAL_T8; rows = 1; cols = 2;
+#elif SCENARIO == 14
+    type = VNACAL_U8; rows = 2; cols = 1;
 #endif
     ghost_err_reset();
     vcp = vnacal_create(verif_error_fn, NULL);
@@ -101,8 +105,20 @@ void h_add_scenario(void)
     rc = vnacal_new_add_through_m(vnp, m, 3, 2, 1, 2);
 #elif SCENARIO == 12		/* NULL m */
     rc = vnacal_new_add_through_m(vnp, NULL, 2, 2, 1, 2);
+#elif SCENARIO == 13		/* 1x2 calibration, two-port standard given with MORE m rows (2) than the calibration has */
+    rc = vnacal_new_add_line_m(vnp, m, 2, 2, s_full, 1, 2);
+#elif SCENARIO == 14		/* 2x1 calibration, two-port standard given with MORE m columns (2) than the calibration has */
+    rc = vnacal_new_add_through_m(vnp, m, 2, 2, 1, 2);
+#elif SCENARIO == 15		/* T8 2x2, S given as 2x1 (second column unknown to the caller): accepted or refused, never a crash */
+    rc = vnacal_new_add_mapped_matrix_m(vnp, m, 2, 2, s_full, 2, 1, map12);
+    expect_ok = -1;
+#elif SCENARIO == 16		/* the same with s 1x2 */
+    rc = vnacal_new_add_mapped_matrix_m(vnp, m, 2, 2, s_full, 1, 2, map12);
+    expect_ok = -1;
 #endif
     REACH("add returned");
+    if (expect_ok == -1)		/* either outcome is fine, each with its own obligations */
+	expect_ok = (rc == 0);
     if (expect_ok) {
 	CHECK(rc == 0 && ghost_err_calls == 0, "a valid standard is accepted silently");
 	CHECK(vnp->vn_measurement_count == std_before + 1 && vnp->vn_equations > eq_before,
